@@ -227,8 +227,16 @@ func c16Units(res *vx.Result) []c16Unit {
 	for _, d := range gold {
 		units = append(units, c16BaseUnit(d))
 	}
-	for _, d := range plain {
-		units = append(units, c16BaseUnit(d))
+	if vx.Thorough() {
+		for _, d := range plain {
+			units = append(units, c16BaseUnit(d))
+		}
+	} else {
+		// quick tier: the modules without golden files (no fixes, positions only) are analysed as
+		// merged copies, one go list per 25 modules instead of one per module
+		for _, chunk := range c16Chunks(plain, 25) {
+			units = append(units, c16Unit{Kind: "variant", Dirs: chunk, Variant: "base", Patterns: []string{"./..."}, GoVer: c16GoVer(chunk[0]), Tests: true})
+		}
 	}
 	// the repository itself and std
 	repo := vx.RepoDir()
@@ -237,7 +245,7 @@ func c16Units(res *vx.Result) []c16Unit {
 		res.NotExhaustive("go list ./... gave nothing")
 	}
 	for _, pats := range c16SplitPatterns(pkgs, vx.Pick(4, 6)) {
-		units = append(units, c16Unit{Kind: "repo", Variant: "base", Patterns: pats, Tests: true, WorkDir: repo})
+		units = append(units, c16Unit{Kind: "repo", Variant: "base", Patterns: pats, Tests: vx.Thorough(), WorkDir: repo})
 	}
 	if vx.Thorough() {
 		var std []string
